@@ -18,8 +18,10 @@
 //     F         fence: a private query per open channel, answered in order, so that everything sent before was processed
 //     ST        stop()
 //   Every case ends with (F,) stop() and a drain of the server sockets (Extra events: further transmissions of a query).
-// Events: Begin{mode,retries,tmo,nsrv} Query{q} QueryRet{q} SrvRecv{q,proto,ok,n,srv} SrvSend{q,proto,kind,tag}
-//         Done{q,kind,tag,early} Wait{q,got} Fence{ok} StopCall StopRet Extra{q,proto,n} End
+//   tmo=S: config.timeout = 1.5 s (real time), armings of timeout timers are kept 300 ms apart; tmo=L: 30 s, never fires.
+//   case "probe=cleanup": the pause-plan probe of the cleanup thread (see runCleanupProbe).
+// Events: Begin{mode,retries,tmo,nsrv,api,probe} Query{q} QueryRet{q} SrvRecv{q,proto,ok,n,srv} SrvSend{q,proto,kind,tag}
+//         Done{q,kind,tag,early,nth} Wait{q,got,lim} Fence{ok} Probe{reached} StopCall StopRet Extra{q,proto,n} End
 #include "iora/network/dns/dns_transport.hpp"
 #include "vf/exec.hpp"
 #include "vf/trace.hpp"
